@@ -1132,3 +1132,443 @@ def c01_reduce(ctx):
     ctx.check(dotted(args.elts[0]) == "self.items", rets[0], "the task list itself crosses the process boundary, in order")
     e1 = args.elts[1]
     ctx.check(isinstance(e1, ast.Tuple) and [dotted(x) for x in e1.elts] == ["self._backend", "self._n_jobs"], rets[0], "nested backend and n_jobs are carried along")
+
+
+# ---------------------------------------------------------------------------
+# C09 clauses
+# ---------------------------------------------------------------------------
+
+_CONSUMERS = {"list", "tuple", "sorted", "set", "frozenset", "dict", "sum", "max", "min", "any", "all", "next",
+              "zip", "enumerate", "map", "filter", "reversed", "collections.deque", "deque", "itertools.chain",
+              "itertools.tee", "tee", "len"}
+_TRACKED = {"iterable", "iterator", "self._original_iterator", "it"}
+
+
+def _direct_consumptions(fn, tracked):
+    out = []
+    for n in body_walk(fn):
+        if isinstance(n, ast.Call) and call_name(n) in _CONSUMERS:
+            for a in n.args:
+                x = a.value if isinstance(a, ast.Starred) else a
+                if dotted(x) in tracked:
+                    out.append((n, "%s(%s)" % (call_name(n), dotted(x))))
+        elif isinstance(n, ast.Call):
+            for a in n.args:
+                if isinstance(a, ast.Starred) and dotted(a.value) in tracked:
+                    out.append((n, "*%s unpacking" % dotted(a.value)))
+        if isinstance(n, (ast.For, ast.AsyncFor)) and dotted(n.iter) in tracked:
+            out.append((n, "for ... in %s" % dotted(n.iter)))
+        if isinstance(n, (ast.ListComp, ast.SetComp, ast.DictComp, ast.GeneratorExp)):
+            for gen in n.generators:
+                if dotted(gen.iter) in tracked and not isinstance(n, ast.GeneratorExp):
+                    out.append((n, "comprehension over %s" % dotted(gen.iter)))
+    return out
+
+
+def c09_who_consumes(ctx):
+    cls = ctx.repo.cls(PAR, "Parallel")
+    n_methods = 0
+    # positive control: the detector sees the sequential loop
+    so = F(ctx, "Parallel._get_sequential_output")
+    ctl = _direct_consumptions(so, _TRACKED)
+    ctx.check(any(w.startswith("for ") for _, w in ctl), so, "positive control: the consumption detector sees the sequential `for` over the iterable")
+    for fn in [st for st in cls.body if isinstance(st, ast.FunctionDef)]:
+        if fn.name == "_get_sequential_output":
+            continue
+        n_methods += 1
+        for node, what in _direct_consumptions(fn, _TRACKED):
+            if what == "len(iterable)":
+                # allowed only behind hasattr(iterable, "__len__")
+                p = parent(node)
+                ok = isinstance(p, ast.IfExp) and isinstance(p.test, ast.Call) and call_name(p.test) == "hasattr" and const_value(p.test.args[1]) == "__len__" and p.body is node
+                if not ok:
+                    g = cfg_of(fn)
+                    ok = any(isinstance(t, ast.Call) and call_name(t) == "hasattr" and pol for (_, t, pol) in g.conditions_at(g.nodes_of(node)))
+                ctx.check(ok, node, "len(iterable) only behind hasattr(iterable, '__len__') (does not consume)")
+                continue
+            ctx.bad(node, "%s in %s consumes the task iterable eagerly/outside the bounded slice" % (what, fn._qualname))
+    # islice wrappers: lazily created, consumed only by list() in dispatch_one_batch
+    n_sl = 0
+    for fn in [st for st in cls.body if isinstance(st, ast.FunctionDef)]:
+        if fn.name == "_get_sequential_output":
+            continue
+        for c in _islice_calls(fn):
+            if not (c.args and dotted(c.args[0]) in _TRACKED):
+                continue
+            n_sl += 1
+            p = parent(c)
+            if isinstance(p, ast.Call) and call_name(p) in _CONSUMERS:
+                ok = fn.name == "dispatch_one_batch" and call_name(p) == "list" and len(c.args) >= 2
+                ctx.check(ok, c, "the only eager consumption: list(islice(iterator, <bound>)) in dispatch_one_batch",
+                          "islice over the task iterator is materialised in %s" % fn._qualname)
+            else:
+                ctx.check(isinstance(p, ast.Assign) and len(c.args) >= 2, c, "lazy islice wrapper with an explicit bound (%s)" % unparse(c.args[1] if len(c.args) > 1 else c, 40))
+    ctx.floor(n_sl, 2, "islice sites over the task iterator")
+    ctx.ok(cls, "scanned %d Parallel methods: no other construct advances the task iterable" % n_methods, key=PAR + "::Parallel::who-consumes scan")
+
+
+def _inline_names(expr, func, depth=4):
+    """dotted names an expression depends on, through single local defs."""
+    out = set()
+    for d in attrs_in(expr):
+        out.add(d)
+        if "." not in d and depth > 0:
+            for a in _single_defs(func, d):
+                out |= _inline_names(a.value, func, depth - 1)
+    for c in ast.walk(expr):
+        if isinstance(c, ast.Call) and call_name(c):
+            out.add(call_name(c) + "()")
+    return out
+
+
+def c09_bound(ctx):
+    f = F(ctx, "Parallel.dispatch_one_batch")
+    sl = [c for c in _islice_calls(f) if c.args and dotted(c.args[0]) == "iterator"]
+    ctx.need(sl, "no islice(iterator, ...) in dispatch_one_batch")
+    forbidden = ("self.n_tasks", "n_tasks", "len()", "iterable", "self._original_iterator")
+    for c in sl:
+        if len(c.args) < 2:
+            ctx.bad(c, "islice over the task iterator has no bound: the whole input is consumed at once")
+            continue
+        deps = _inline_names(c.args[1], f)
+        ctx.check(not any(d in forbidden for d in deps), c, "slice bound does not depend on the input length (%s)" % sorted(d for d in deps if "." in d or d.endswith("()")),
+                  "slice bound depends on %s: consumption is no longer bounded independently of the input" % sorted(d for d in deps if d in forbidden))
+        ctx.check(any(d in ("self._get_batch_size()", "self.batch_size") for d in deps) and "self._cached_effective_n_jobs" in deps, c,
+                  "slice bound is built from the batch size and the cached effective n_jobs")
+        b = c.args[1]
+        if isinstance(b, ast.Name):
+            d = _single_defs(f, b.id)
+            if len(d) == 1:
+                b = d[0].value
+        ok = isinstance(b, ast.BinOp) and isinstance(b.op, ast.Mult) and {dotted(b.left), dotted(b.right)} == {"batch_size", "n_jobs"}
+        ctx.check(ok, c, "slice bound is batch_size * n_jobs", "slice bound %s is not batch_size * n_jobs" % unparse(b))
+    call = F(ctx, "Parallel.__call__")
+    sl2 = [c for c in _islice_calls(call) if c.args and dotted(c.args[0]) == "iterator"]
+    ctx.need(sl2, "no pre_dispatch islice in __call__")
+    for c in sl2:
+        ctx.need(len(c.args) >= 2, "pre_dispatch islice without bound")
+        deps = set()
+        b = c.args[1]
+        deps = _inline_names(b, call)
+        if dotted(b) == "self._pre_dispatch_amount":
+            for a in nodes_of_type(call, ast.Assign):
+                if "self._pre_dispatch_amount" in stores_to(a) and g_in_else(call, a):
+                    deps |= _inline_names(a.value, call)
+        ctx.check(not any(d in forbidden for d in deps), c, "pre_dispatch bound does not depend on the input length",
+                  "pre_dispatch bound depends on %s" % sorted(d for d in deps if d in forbidden))
+        ctx.check("eval_expr()" in deps or "int()" in deps, c, "pre_dispatch bound is int(eval_expr(pre_dispatch with n_jobs substituted)) or the integer given")
+
+
+def g_in_else(func, node):
+    g = cfg_of(func)
+    return any(unparse(t) == "pre_dispatch == 'all'" and not pol for (_, t, pol) in g.conditions_at(g.nodes_of(node)))
+
+
+def c09_abort_dom(ctx):
+    f = F(ctx, "Parallel.dispatch_one_batch")
+    g = cfg_of(f)
+    sl = [c for c in _islice_calls(f) if c.args and dotted(c.args[0]) == "iterator"]
+    ctx.need(sl, "no islice(iterator, ...) in dispatch_one_batch")
+    tests = [n for n in nodes_of_type(f, ast.If) if unparse(n.test) == "self._aborting" and n.body and isinstance(n.body[-1], ast.Return) and not (n.body[-1].value is not None and is_const(n.body[-1].value, True))]
+    for c in sl:
+        ctx.check(bool(tests) and g.every_path_to(g.nodes_of(c), g.nodes_of_all(tests)), c,
+                  "a test of the abort flag (returning falsy) dominates the slice of the input",
+                  "the input can be sliced without testing the abort flag first: items are taken after a failure / generator close")
+    gets = [c for c in calls_in(f) if call_attr(c) in ("get", "get_nowait") and _state_attr(dotted(c.func.value)) == "_ready_batches"]
+    for c in gets:
+        ctx.check(bool(tests) and g.every_path_to(g.nodes_of(c), g.nodes_of_all(tests)), c, "abort test dominates taking a pre-sliced batch")
+    d = F(ctx, "Parallel._dispatch")
+    gd = cfg_of(d)
+    subs = [c for c in calls_in(d) if call_name(c) == "self._backend.submit"]
+    ctx.need(subs, "no submit in _dispatch")
+    tests2 = [n for n in nodes_of_type(d, ast.If) if unparse(n.test) == "self._aborting" and n.body and isinstance(n.body[-1], ast.Return)]
+    for c in subs:
+        ctx.check(bool(tests2) and gd.every_path_to(gd.nodes_of(c), gd.nodes_of_all(tests2)), c,
+                  "a test of the abort flag dominates backend.submit", "a batch can be submitted without testing the abort flag")
+
+
+def c09_one_per_completion(ctx):
+    dn = F(ctx, "BatchCompletionCallBack._dispatch_new")
+    g = cfg_of(dn)
+    calls = [c for c in calls_in(dn) if call_attr(c) in ("dispatch_next", "dispatch_one_batch", "_dispatch")]
+    ctx.check(len(calls) == 1 and call_name(calls[0]) == "self.parallel.dispatch_next", calls[0] if calls else dn,
+              "a completion triggers exactly one dispatch_next() call site", "%d dispatch call sites in _dispatch_new" % len(calls))
+    for c in calls:
+        ctx.check(not g.in_cycle(g.nodes_of(c)[0]), c, "dispatch_next is not called in a loop",
+                  "dispatch_next is called in a loop: one completion takes several batches (unbounded look-ahead)")
+        ctx.check(under_lock(c), c, "dispatch_next is called under the dispatch lock")
+        conds = g.conditions_at(g.nodes_of(c))
+        ctx.check(any(unparse(t) == "self.parallel._original_iterator is not None" and pol for (_, t, pol) in conds), c,
+                  "only while the original iterator is still live (never for pre_dispatch='all')")
+    nx = F(ctx, "Parallel.dispatch_next")
+    gn = cfg_of(nx)
+    dob = [c for c in calls_in(nx) if call_attr(c) in ("dispatch_one_batch", "_dispatch")]
+    ctx.check(len(dob) == 1 and not gn.in_cycle(gn.nodes_of(dob[0])[0]), dob[0] if dob else nx, "dispatch_next dispatches exactly one batch, not in a loop",
+              "dispatch_next dispatches more than one batch per completion")
+    f = F(ctx, "Parallel.dispatch_one_batch")
+    gf = cfg_of(f)
+    sl = [c for c in _islice_calls(f) if c.args and dotted(c.args[0]) == "iterator"]
+    for c in sl:
+        ctx.check(not gf.in_cycle(gf.nodes_of(c)[0]), c, "one bounded slice of the input per dispatch_one_batch call",
+                  "the input is sliced in a loop inside dispatch_one_batch")
+    disp = [c for c in calls_in(f) if call_name(c) == "self._dispatch"]
+    for c in disp:
+        ctx.check(not gf.in_cycle(gf.nodes_of(c)[0]), c, "at most one batch submitted per dispatch_one_batch call")
+    # the callback dispatches at most once per completion (two disjoint sites)
+    cb = F(ctx, "BatchCompletionCallBack.__call__")
+    gc_ = cfg_of(cb)
+    dns = [c for c in calls_in(cb) if call_name(c) == "self._dispatch_new"]
+    ctx.check(1 <= len(dns) <= 2 and all(not gc_.in_cycle(gc_.nodes_of(c)[0]) for c in dns) and
+              all(not gc_.path_exists(gc_.nodes_of(a), gc_.nodes_of(b)) for a in dns for b in dns if a is not b), dns[0] if dns else cb,
+              "the completion callback reaches _dispatch_new at most once")
+
+
+def c09_all(ctx):
+    call = F(ctx, "Parallel.__call__")
+    g = cfg_of(call)
+    tests = [n for n in nodes_of_type(call, ast.If) if unparse(n.test) in ("pre_dispatch == 'all'",)]
+    ctx.need(tests, "`pre_dispatch == 'all'` branch not found in __call__")
+    t = tests[0]
+    st = [a for a in t.body if isinstance(a, ast.Assign) and "self._original_iterator" in stores_to(a)]
+    ctx.check(bool(st) and is_const(st[0].value, None), st[0] if st else t, "pre_dispatch='all': callbacks never dispatch (original iterator set to None)",
+              "pre_dispatch='all' branch does not disable callback dispatching")
+    wrapped = [c for c in _islice_calls(call) if in_block(c, t.body)]
+    ctx.check(not wrapped, wrapped[0] if wrapped else t, "pre_dispatch='all': the iterator is handed over unwrapped (everything taken up front)")
+    st2 = [a for a in t.orelse if isinstance(a, ast.Assign) and "self._original_iterator" in stores_to(a)]
+    ctx.check(bool(st2) and dotted(st2[0].value) == "iterator", st2[0] if st2 else t, "otherwise the original iterator is kept for lazy dispatching")
+    w2 = [c for c in _islice_calls(call) if in_block(c, t.orelse)]
+    ctx.check(len(w2) == 1, w2[0] if w2 else t, "otherwise the caller thread only sees a pre_dispatch-long islice")
+    s = F(ctx, "Parallel._start")
+    tt = [n for n in nodes_of_type(s, ast.If) if unparse(n.test) == "pre_dispatch == 'all'"]
+    ctx.check(bool(tt) and any(isinstance(a, ast.Assign) and "self._iterating" in stores_to(a) and is_const(a.value, False) for a in tt[0].body), tt[0] if tt else s,
+              "_start: with 'all' nothing is left to iterate after the initial dispatch loop")
+    it = [a for a in nodes_of_type(call, ast.Assign) if isinstance(a.value, ast.Call) and call_name(a.value) == "iter" and dotted(a.value.args[0]) == "iterable"]
+    ctx.check(len(it) == 1, it[0] if it else call, "one iterator is created from the iterable per call")
+
+
+def c09_eval(ctx):
+    ev = ctx.repo.func(UT, "eval_")
+    p = ev.args.args[0].arg
+    kinds = set()
+    for n in nodes_of_type(ev, ast.If):
+        t = n.test
+        if isinstance(t, ast.Call) and call_name(t) == "isinstance" and dotted(t.args[0]) == p:
+            k = t.args[1]
+            for e in (k.elts if isinstance(k, ast.Tuple) else [k]):
+                kinds.add(dotted(e))
+    allowed = {"ast.Constant", "ast.BinOp", "ast.UnaryOp", "ast.Num"}
+    ctx.check(kinds and kinds <= allowed, ev, "eval_ dispatches only on %s" % sorted(kinds), "eval_ handles node kinds %s beyond constants and arithmetic" % sorted(kinds - allowed))
+    g = cfg_of(ev)
+    raises = nodes_of_type(ev, ast.Raise)
+    ctx.check(bool(raises), ev, "eval_ raises for every other node kind")
+    for c in calls_in(ev):
+        cn = call_name(c)
+        ctx.check(cn in ("isinstance", "eval_", "type", "TypeError") or isinstance(c.func, ast.Subscript), c, "eval_ only calls itself and the operator table (%s)" % (cn or "operators[...]"),
+                  "eval_ calls %s" % cn)
+    m = ctx.repo.mod(UT)
+    tab = [a for a in m.tree.body if isinstance(a, ast.Assign) and isinstance(a.targets[0], ast.Name) and a.targets[0].id == "operators"]
+    ctx.need(tab and isinstance(tab[0].value, ast.Dict), "operators table not found")
+    ok_keys = {"ast.Add": "add", "ast.Sub": "sub", "ast.Mult": "mul", "ast.Div": "truediv", "ast.FloorDiv": "floordiv", "ast.Mod": "mod", "ast.Pow": "pow", "ast.USub": "neg", "ast.UAdd": "pos"}
+    for k, v in zip(tab[0].value.keys, tab[0].value.values):
+        kd, vd = dotted(k), dotted(v)
+        ctx.check(kd in ok_keys and vd is not None and vd.split(".")[-1] == ok_keys[kd], k, "operator %s -> %s" % (kd, vd), "operator table maps %s to %s" % (kd, vd))
+    ee = ctx.repo.func(UT, "eval_expr")
+    ps = [c for c in calls_in(ee) if call_name(c) == "ast.parse"]
+    ctx.check(bool(ps) and kwarg(ps[0], "mode", 2) is not None and const_value(kwarg(ps[0], "mode", 2)) == "eval", ps[0] if ps else ee, "eval_expr parses in 'eval' mode (expressions only)")
+    # nobody calls eval/exec/compile in the non-vendored package
+    n = 0
+    import builtins as _b
+    for rel, mod in ctx.repo.modules.items():
+        if "externals" in rel:
+            continue
+        for node in ast.walk(mod.tree):
+            if isinstance(node, ast.Call) and isinstance(node.func, ast.Name) and node.func.id in ("eval", "exec", "compile"):
+                ctx.bad(node, "call of builtin %s() in the package" % node.func.id)
+            if isinstance(node, ast.Call):
+                n += 1
+    ctl = ast.parse("x = eval('1+1')")
+    ctx.check(any(isinstance(nd, ast.Call) and isinstance(nd.func, ast.Name) and nd.func.id == "eval" for nd in ast.walk(ctl)), ee,
+              "positive control matched; %d call sites scanned, no eval/exec/compile" % n, key=UT + "::<package>::no eval/exec/compile")
+
+
+# ---------------------------------------------------------------------------
+# C16 clauses
+# ---------------------------------------------------------------------------
+
+def c16_running(ctx):
+    f = F(ctx, "Parallel._reset_run_tracking")
+    g = cfg_of(f)
+    sets = [a for a in assigns_to(f, "self._running") if is_const(a.value, True)]
+    tests = [n for n in nodes_of_type(f, ast.If) if unparse(n.test) == "self._running" and any(isinstance(s, ast.Raise) for s in n.body)]
+    if not tests:
+        ctx.bad(f, "no `already running => raise` test: two overlapping runs would be mixed", key=PAR + "::Parallel._reset_run_tracking::running test")
+        return
+    if not sets:
+        ctx.bad(f, "_running is never set: overlapping runs are not rejected", key=PAR + "::Parallel._reset_run_tracking::running set")
+        return
+    t, s = tests[0], sets[0]
+    rs = [r for r in t.body if isinstance(r, ast.Raise)]
+    ctx.check(isinstance(rs[0].exc, ast.Call) and call_name(rs[0].exc) == "RuntimeError", rs[0], "already running => RuntimeError")
+    ctx.check(under_lock(t) and under_lock(s) and set(map(id, enclosing_withs(t))) & set(map(id, enclosing_withs(s))), s,
+              "test and set of _running happen in one `with lock` block (atomic)", "test and set of _running are not in one locked block")
+    ctx.check(g.every_path_to(g.nodes_of(s), g.nodes_of(t)), s, "the set is dominated by the test")
+    call = F(ctx, "Parallel.__call__")
+    first = [st for st in call.body if not (isinstance(st, ast.Expr) and isinstance(st.value, ast.Constant))][0]
+    ctx.check(isinstance(first, ast.Expr) and isinstance(first.value, ast.Call) and call_name(first.value) == "self._reset_run_tracking", first, "it is the first thing __call__ does")
+    for q in ("Parallel._get_outputs", "Parallel._get_sequential_output"):
+        fn = F(ctx, q)
+        tr = _final_try(fn)
+        ctx.need(tr is not None, "%s has no try/finally" % q)
+        cl = [a for a in tr.finalbody if isinstance(a, ast.Assign) and "self._running" in stores_to(a) and is_const(a.value, False)]
+        ctx.check(bool(cl), cl[0] if cl else tr, "%s clears _running in finally (normal end, error, generator close)" % q,
+                  "%s does not clear _running in finally" % q, key=None if cl else "%s::%s::finally clears _running" % (PAR, q))
+
+
+def c16_genexit(ctx):
+    f = F(ctx, "Parallel._get_outputs")
+    tr = _final_try(f)
+    ctx.need(tr is not None, "_get_outputs has no try/finally")
+    hs = [h for h in tr.handlers if h.type is not None and unparse(h.type) == "GeneratorExit"]
+    if not hs:
+        ctx.bad(tr, "_get_outputs has no GeneratorExit handler", key=PAR + "::Parallel._get_outputs::GeneratorExit handler")
+        return
+    h = hs[0]
+    ctx.check(tr.handlers.index(h) < min([i for i, x in enumerate(tr.handlers) if x.type is None or unparse(x.type) == "BaseException"] or [99]), h, "GeneratorExit is handled before the generic BaseException handler")
+    body = ast.Module(body=h.body, type_ignores=[])
+    ex = [a for a in h.body if isinstance(a, ast.Assign) and "self._exception" in stores_to(a) and is_const(a.value, True)]
+    ctx.check(bool(ex), ex[0] if ex else h, "closing the generator sets _exception (pending results are dropped)")
+    g = cfg_of(f)
+    ab = [c for c in calls_in(body, "self._abort")]
+    ctx.check(bool(ab), ab[0] if ab else h, "same-thread close calls _abort() (sets _aborting: no further dispatch)", "GeneratorExit handler does not abort")
+    last = h.body[-1]
+    ctx.check(isinstance(last, ast.Raise) and last.exc is None, last, "same-thread close re-raises GeneratorExit")
+    if ab:
+        ctx.check(g.every_path_to(g.nodes_of(last), g.nodes_of_all(ab)), last, "_abort() precedes the re-raise")
+    # detached branch
+    thr = [n for n in walk_local(body) if isinstance(n, ast.ClassDef)]
+    det = [a for a in walk_local(body) if isinstance(a, ast.Assign) and "detach_generator_exit" in stores_to(a) and is_const(a.value, True)]
+    if thr:
+        run = [m for m in thr[0].body if isinstance(m, ast.FunctionDef) and m.name == "run"]
+        ctx.need(run, "detached thread class has no run()")
+        rc = [call_name(c) for c in calls_in(run[0])]
+        ctx.check("_parallel._abort" in rc and "_parallel._terminate_and_reset" in rc and rc.index("_parallel._abort") < rc.index("_parallel._terminate_and_reset"), run[0],
+                  "foreign-thread close: the detached thread aborts, then terminates and resets")
+        ctx.check(bool(det), det[0] if det else h, "foreign-thread close sets the detach flag")
+        fin_t = [c for c in calls_in(ast.Module(body=tr.finalbody, type_ignores=[]), "self._terminate_and_reset")]
+        for c in fin_t:
+            st = enclosing_stmt(c)
+            p = parent(st)
+            ctx.check(isinstance(p, ast.If) and unparse(p.test) == "not detach_generator_exit", c, "finally skips _terminate_and_reset iff detached")
+        starts = [c for c in calls_in(body) if call_attr(c) == "start"]
+        ctx.check(bool(starts), starts[0] if starts else h, "the detached thread is started")
+    else:
+        ctx.ok(h, "no detached branch: GeneratorExit is always handled in the closing thread")
+    ab_f = F(ctx, "Parallel._abort")
+    ga = cfg_of(ab_f)
+    st = [s for s in assigns_to(ab_f, "self._aborting") if is_const(s.value, True)]
+    ctx.check(bool(st) and ga.every_path_from([ga.entry], ga.nodes_of_all(st)), st[0] if st else ab_f, "_abort sets _aborting on every path (dispatch stops: C09.ABORT-DOM)")
+
+
+def c16_head_only(ctx):
+    f = F(ctx, "Parallel._retrieve")
+    g = cfg_of(f)
+    gs = [c for c in calls_in(f) if call_attr(c) == "get_status"]
+    ordered = [c for c in gs if isinstance(c.func.value, ast.Subscript)]
+    ctx.floor(len(ordered), 1, "status wait on an element of the jobs queue")
+    for c in ordered:
+        sub = c.func.value
+        ctx.check(dotted(sub.value) == "self._jobs" and const_value(sub.slice) == 0, c, "ordered mode waits on the oldest job only (self._jobs[0])",
+                  "ordered mode waits on %s: an early result is held back by a later job (or order is broken)" % unparse(sub))
+        conds = g.conditions_at(g.nodes_of(c))
+        ctx.check(any(unparse(t) == "self.return_ordered" and pol for (_, t, pol) in conds), c, "that wait is taken only in ordered mode")
+    # the sleeping branch of ordered mode is entered only on `no job` or `head pending`
+    for n in nodes_of_type(f, ast.If):
+        if any(c in ordered for c in calls_in(n.test)):
+            t = n.test
+            ok = isinstance(t, ast.BoolOp) and isinstance(t.op, ast.Or) and len(t.values) == 2
+            if ok:
+                a, b = t.values
+                ok = isinstance(a, ast.Compare) and const_value(a.comparators[0]) == 0 and isinstance(a.ops[0], ast.Eq) and \
+                    isinstance(b, ast.Compare) and isinstance(b.ops[0], ast.Eq) and _name_is(b.comparators[0], "TASK_PENDING")
+            ctx.check(ok, n, "wait condition is exactly `no job yet or head job still pending`", "ordered wait condition changed to %s" % unparse(t))
+            ctx.check(any(isinstance(s, ast.Continue) for s in n.body), n, "while waiting nothing is popped (continue)")
+    pops = [c for c in calls_in(f) if call_attr(c) in ("popleft", "pop") and dotted(c.func.value) == "self._jobs"]
+    ctx.check(len(pops) == 1 and call_attr(pops[0]) == "popleft", pops[0] if pops else f, "the job yielded next is the left-most one")
+    slp = [c for c in calls_in(f) if call_name(c) == "time.sleep"]
+    for c in slp:
+        v = const_value(c.args[0]) if c.args else None
+        ctx.check(isinstance(v, (int, float)) and v <= 0.1, c, "polling interval %s s is a small constant" % v)
+
+
+def c16_unordered(ctx):
+    f = F(ctx, "BatchCompletionCallBack._register_outcome")
+    g = cfg_of(f)
+    apps = [c for c in calls_in(f) if call_attr(c) == "append" and _state_attr(dotted(c.func.value)) == "_jobs"]
+    if not apps:
+        ctx.bad(f, "completed trackers are never appended to the jobs queue: unordered mode delivers nothing", key=PAR + "::BatchCompletionCallBack._register_outcome::append to _jobs")
+        return
+    ctx.check(len(apps) == 1, apps[0], "exactly one append site")
+    for c in apps:
+        ctx.check(c.args and dotted(c.args[0]) == "self", c, "the tracker appends itself")
+        ctx.check(under_lock(c), c, "append happens under the dispatch lock")
+        ctx.check(not g.in_cycle(g.nodes_of(c)[0]), c, "appended once")
+        conds = g.conditions_at(g.nodes_of(c))
+        ro = [(t, pol) for (_, t, pol) in conds if "return_ordered" in unparse(t)]
+        ctx.check(len(ro) == 1 and unparse(ro[0][0]) == "self.parallel.return_ordered" and not ro[0][1], c, "append iff not return_ordered",
+                  "append is conditioned on %s" % [(unparse(t), p) for t, p in ro])
+        other = [(unparse(t), pol) for (_, t, pol) in conds if "return_ordered" not in unparse(t) and not implies_pending(t, pol)]
+        ctx.check(not other, c, "on every path past the once-guard (no other condition)", "append additionally conditioned on %s: some completions are never delivered" % other)
+        st = assigns_to(f, "self._result")
+        ctx.check(bool(st) and g.every_path_to(g.nodes_of(c), g.nodes_of_all(st)), c, "the result is stored before the tracker becomes visible to the consumer")
+    r = F(ctx, "Parallel._retrieve")
+    rm = [c for c in calls_in(r) if call_attr(c) in ("remove", "discard") and dotted(c.func.value) == "self._jobs_set"]
+    gr = cfg_of(r)
+    ctx.check(len(rm) == 1, rm[0] if rm else r, "a delivered tracker is removed from the pending set")
+    for c in rm:
+        conds = gr.conditions_at(gr.nodes_of(c))
+        ctx.check(any(unparse(t) == "not self.return_ordered" and pol or unparse(t) == "self.return_ordered" and not pol for (_, t, pol) in conds), c, "only in unordered mode")
+    tcj = [c for c in calls_in(r) if call_name(c) == "next" and c.args and any(dotted(x) == "self._jobs_set" for x in ast.walk(c.args[0]))]
+    ctx.check(bool(tcj), tcj[0] if tcj else r, "unordered mode picks a pending job for timeout control from the pending set")
+
+
+def c16_exit(ctx):
+    f = F(ctx, "Parallel.__exit__")
+    g = cfg_of(f)
+    ab = [c for c in calls_in(f) if call_name(c) == "self._abort"]
+    tr = [c for c in calls_in(f) if call_name(c) == "self._terminate_and_reset"]
+    ctx.check(bool(tr) and g.every_path_from([g.entry], g.nodes_of_all(tr)), tr[0] if tr else f, "__exit__ terminates and resets on every path",
+              "__exit__ does not always call _terminate_and_reset()", key=None if tr else PAR + "::Parallel.__exit__::_terminate_and_reset")
+    ctx.check(bool(ab), ab[0] if ab else f, "__exit__ aborts a generator run that is still active", "__exit__ never aborts an active generator run",
+              key=None if ab else PAR + "::Parallel.__exit__::_abort")
+    for c in ab:
+        conds = g.conditions_at(g.nodes_of(c))
+        ctx.check(len(conds) == 1 and unparse(conds[0][1]) == "self.return_generator and self._calling" and conds[0][2], c, "abort iff return_generator and a call is active")
+        ctx.check(tr and g.every_path_from(g.nodes_of(c), g.nodes_of_all(tr)), c, "abort precedes terminate")
+    mb = [a for a in assigns_to(f, "self._managed_backend") if is_const(a.value, False)]
+    ctx.check(bool(mb) and tr and g.every_path_to(g.nodes_of_all(tr), g.nodes_of_all(mb)), mb[0] if mb else f, "_managed_backend is cleared before terminating (so the backend is really shut down)")
+    en = F(ctx, "Parallel.__enter__")
+    mb2 = [a for a in assigns_to(en, "self._managed_backend") if is_const(a.value, True)]
+    ctx.check(bool(mb2), mb2[0] if mb2 else en, "__enter__ marks the backend as managed")
+
+
+def c16_support(ctx):
+    f = F(ctx, "Parallel.__init__")
+    g = cfg_of(f)
+    tests = [n for n in nodes_of_type(f, ast.If) if "supports_return_generator" in unparse(n.test)]
+    if not tests:
+        ctx.bad(f, "__init__ does not reject return_as=generator for backends that cannot support it", key=PAR + "::Parallel.__init__::supports_return_generator test")
+        return
+    for n in tests:
+        ctx.check(unparse(n.test) == "self.return_generator and (not backend.supports_return_generator)", n, "test is `return_generator and not backend.supports_return_generator`")
+        ctx.check(any(isinstance(s, ast.Raise) and isinstance(s.exc, ast.Call) and call_name(s.exc) == "ValueError" for s in n.body), n, "=> ValueError")
+    rg = assigns_to(f, "self.return_generator")
+    ro = assigns_to(f, "self.return_ordered")
+    ctx.check(bool(rg) and unparse(rg[0].value) == "return_as != 'list'", rg[0] if rg else f, "return_generator iff return_as != 'list'")
+    ctx.check(bool(ro) and unparse(ro[0].value) == "return_as != 'generator_unordered'", ro[0] if ro else f, "return_ordered iff return_as != 'generator_unordered'")
+    call = F(ctx, "Parallel.__call__")
+    rets = [r for r in nodes_of_type(call, ast.Return) if isinstance(r.value, ast.IfExp)]
+    ctx.floor(len(rets), 2, "return sites of __call__")
+    for r in rets:
+        v = r.value
+        ctx.check(unparse(v.test) == "self.return_generator" and dotted(v.body) == "output" and isinstance(v.orelse, ast.Call) and call_name(v.orelse) == "list", r,
+                  "__call__ returns the generator itself, or list(generator) for return_as='list'")
